@@ -147,7 +147,7 @@ pub struct BatchResult {
     pub per_scenario_digest: Vec<(u64, u64)>,
     pub stats: Stats,
     pub samples: Vec<J>,
-    pub violations: Vec<(u64, Violation, Vec<u32>, crate::tape::Spans)>,
+    pub violations: Vec<(u64, Violation, Vec<u32>, crate::tape::Spans, Vec<u64>)>,
     pub wall_s: f64,
     pub hit_time_cap: bool,
 }
@@ -161,7 +161,7 @@ struct WorkerOut {
     digests: Vec<(u64, u64)>,
     stats: Stats,
     samples: Vec<(u64, J)>,
-    violations: Vec<(u64, Violation, Vec<u32>, crate::tape::Spans)>,
+    violations: Vec<(u64, Violation, Vec<u32>, crate::tape::Spans, Vec<u64>)>,
 }
 
 const HANG_S: u64 = 60;
@@ -256,6 +256,10 @@ pub fn run_batch(
                             samples: Vec::new(),
                             violations: Vec::new(),
                         };
+                        // the scenarios this worker ran just before (context
+                        // for violations that depend on process history)
+                        let mut recent: std::collections::VecDeque<u64> =
+                            std::collections::VecDeque::new();
                         loop {
                             if stop.load(Ordering::Relaxed) {
                                 break;
@@ -277,8 +281,13 @@ pub fn run_batch(
                                 want_sample: i < 3,
                                 index: i,
                             };
-                            let r = prop.run(&mut tape, &ctx, &mut out.stats);
+                            let r = run_isolated(prop, &mut tape, &ctx, &mut out.stats);
                             running[w].0.store(0, Ordering::Relaxed);
+                            let context: Vec<u64> = recent.iter().copied().collect();
+                            recent.push_back(i);
+                            if recent.len() > 3 {
+                                recent.pop_front();
+                            }
                             out.scenarios += 1;
                             out.executions += r.executions;
                             out.steps += r.steps;
@@ -294,7 +303,7 @@ pub fn run_batch(
                             }
                             if let Some(v) = r.violation {
                                 let (canon, spans) = tape.into_parts();
-                                out.violations.push((i, v, canon, spans));
+                                out.violations.push((i, v, canon, spans, context));
                                 if nviol.fetch_add(1, Ordering::Relaxed) + 1 >= MAX_VIOLATIONS as u64
                                 {
                                     stop.store(true, Ordering::Relaxed);
@@ -350,7 +359,7 @@ pub fn run_batch(
     }
     samples.sort_by_key(|(i, _)| *i);
     res.samples = samples.into_iter().map(|(_, s)| s).collect();
-    res.violations.sort_by_key(|(i, _, _, _)| *i);
+    res.violations.sort_by_key(|(i, _, _, _, _)| *i);
     res.distinct_nontrivial = keys.len() as u64;
     res.distinct_histories = histories.len() as u64;
     res.wall_s = start.elapsed().as_secs_f64();
@@ -380,6 +389,29 @@ fn report_hang(prop: &dyn Property, tier: Tier, seed: u64, index: u64) -> ! {
     let _ = std::fs::write(&path, j.pretty());
     println!("VIOLATION property={} replay={}", prop.id(), path.display());
     std::process::exit(1);
+}
+
+/// Runs one scenario on a thread of its own: whatever the code under test
+/// keeps per thread starts clean for every scenario, so a re-run of the
+/// scenario (minimisation, replay) sees what the first run saw.
+pub fn run_isolated(
+    prop: &dyn Property,
+    tape: &mut Tape,
+    ctx: &Ctx,
+    stats: &mut Stats,
+) -> ScenarioResult {
+    let slot = current_slot();
+    std::thread::scope(|s| {
+        std::thread::Builder::new()
+            .stack_size(64 << 20)
+            .spawn_scoped(s, || {
+                adopt_slot(slot);
+                prop.run(tape, ctx, stats)
+            })
+            .expect("spawn scenario thread")
+            .join()
+            .expect("scenario thread panicked (harness error)")
+    })
 }
 
 // ------------------------------------------------------------ known findings
@@ -451,7 +483,7 @@ fn rerun(
         want_sample: false,
         index,
     };
-    let r = prop.run(&mut t, &ctx, &mut st);
+    let r = run_isolated(prop, &mut t, &ctx, &mut st);
     let (canon, spans) = t.into_parts();
     (r, canon, spans)
 }
@@ -511,7 +543,7 @@ pub fn check(prop: &dyn Property, tier: Tier) -> i32 {
     // and in total); the clock only decides how far minimisation gets, never
     // what is reported as failing
     let shrink_started = Instant::now();
-    for (index, v0, tape0, spans0) in &res.violations {
+    for (index, v0, tape0, spans0, context0) in &res.violations {
         // minimise: same oracle rule must keep failing
         let rule = v0.rule.clone();
         let mut budget = plan.shrink_budget;
@@ -532,9 +564,11 @@ pub fn check(prop: &dyn Property, tier: Tier) -> i32 {
             }
         });
         let (r, canon, _) = rerun(prop, tier, *index, &best);
+        let mut history_context: Option<Vec<u64>> = None;
         let (v, canon, used) = match r.violation {
             Some(v) if v.rule == rule => (v, canon, used),
             _ => {
+                history_context = Some(context0.clone());
                 // The violation does not recur when the scenario is re-run in
                 // this process: what the code under test did depended on what
                 // this process had run before (state carried between calls).
@@ -564,7 +598,20 @@ pub fn check(prop: &dyn Property, tier: Tier) -> i32 {
             return 2;
         }
         let path = dir.join(format!("{}-{}-{}.json", prop.id(), seed, index));
-        let j = replay_file_json(prop, tier, seed, *index, &v, &canon, tape0.len(), used);
+        let mut j = replay_file_json(prop, tier, seed, *index, &v, &canon, tape0.len(), used);
+        if let (Some(ctx_indices), J::O(fields)) = (&history_context, &mut j) {
+            // what happened depended on what this process had run before:
+            // the replay first re-runs the scenarios the same worker ran
+            // just before (regenerated from seed and index), then this one
+            fields.push((
+                "history_dependent".to_string(),
+                J::Bool(true),
+            ));
+            fields.push((
+                "context_scenarios".to_string(),
+                J::A(ctx_indices.iter().map(|i| J::U(*i)).collect()),
+            ));
+        }
         if let Err(e) = std::fs::write(&path, j.pretty()) {
             eprintln!("HARNESS ERROR: cannot write {}: {}", path.display(), e);
             return 2;
@@ -681,16 +728,33 @@ pub fn replay(prop: &dyn Property, path: &str, machine: bool) -> i32 {
         ),
         _ => Tape::record(scenario_seed(seed, prop.id(), index)),
     };
+    let history_dependent = matches!(j.get("history_dependent"), Some(J::Bool(true)));
+    let mut st = Stats::default();
+    if let Some(items) = j.get("context_scenarios").and_then(|c| c.as_arr()) {
+        for item in items {
+            if let Some(ci) = item.as_u64() {
+                let mut t = Tape::record(scenario_seed(seed, prop.id(), ci));
+                let c = Ctx {
+                    tier,
+                    want_sample: false,
+                    index: ci,
+                };
+                let _ = run_isolated(prop, &mut t, &c, &mut st);
+            }
+        }
+    }
     let ctx = Ctx {
         tier,
         want_sample: false,
         index,
     };
-    let mut st = Stats::default();
-    let r = prop.run(&mut tape, &ctx, &mut st);
+    let r = run_isolated(prop, &mut tape, &ctx, &mut st);
     match r.violation {
         Some(v) => {
-            let exact = v.rule == want_rule && want_hash.map_or(true, |h| h == v.log_hash);
+            // a history-dependent violation cannot promise the same failing
+            // execution, only the same rule on the same scenario
+            let exact = v.rule == want_rule
+                && (history_dependent || want_hash.map_or(true, |h| h == v.log_hash));
             println!("REPRODUCED exact={} rule={} detail={}", exact, v.rule, v.detail);
             if !machine {
                 println!("{}", v.render.pretty());
